@@ -71,6 +71,58 @@ def run(chk):
                 for f in P.values():
                     _taint_function(chk, r1, name, f, derived_cols, seen_sites, final=True)
             break
+    # ------------------------------------------------------------------ R05.4 data classes: usage never decides weather cells
+    r4 = chk.rule("R05.4", "data preparation: no flow from the usage column into the weather columns (no whole-row blanking / row filtering / temperature store conditioned on usage)", 8)
+    from rules.common import BILLING_DATA, DAILY_DATA, HOURLY_DATA
+    prep = [(HOURLY_DATA, "_HourlyData._set_data"), (HOURLY_DATA, "_HourlyData._get_contiguous_datetime"), (HOURLY_DATA, "_HourlyData._interpolate"),
+            (HOURLY_DATA, "HourlyReportingData.__init__"), (DAILY_DATA, "_DailyData._set_data"), (DAILY_DATA, "_DailyData._merge_meter_temp"),
+            (DAILY_DATA, "DailyReportingData.__init__"), (BILLING_DATA, "BillingReportingData.__init__"),
+            ("opendsm.common.hourly_interpolation", "interpolate"), ("opendsm.eemeter.common.data_processor_utilities", "remove_duplicates")]
+    weather_only = [(DAILY_DATA, "_DailyData._compute_temperature_features"), (BILLING_DATA, "_BillingData._compute_temperature_features")]
+    WEATHER = ("temperature", "ghi")
+    for mod, q in prep:
+        f = chk.repo.func(mod, q)
+        n_chk = 0
+        for st in [x for x in walk_no_nested(f.node) if isinstance(x, (ast.Assign, ast.AugAssign))]:
+            tgt = st.targets[0] if isinstance(st, ast.Assign) else st.target
+            val = st.value
+            reads = [r for r in _reads_usage(val) if not _presence_test_only(f, r)]
+            # (1) store into a weather column
+            if isinstance(tgt, ast.Subscript):
+                sl = tgt.slice
+                col = const_str(sl) if not isinstance(sl, ast.Tuple) else const_str(sl.elts[-1])
+                mask_reads = _reads_usage(sl.elts[0]) if isinstance(sl, ast.Tuple) else []
+                if col in WEATHER:
+                    n_chk += 1
+                    r4.require(not reads and not mask_reads, f"{f.key}|weather-store:{col}", f.where(st),
+                               f"{f.qualname}: `{unparse(st)[:80]}` writes the `{col}` column using the usage column: the weather a prediction is based on would depend on observed consumption")
+                elif col is None and isinstance(sl, ast.Tuple) is False and (mask_reads or _reads_usage(sl)) and not (isinstance(tgt.value, ast.Attribute) and tgt.value.attr == "loc"):
+                    # df[mask(usage)] = value : whole rows
+                    n_chk += 1
+                    r4.require(False, f"{f.key}|row-store-by-usage", f.where(st), f"{f.qualname}: `{unparse(st)[:80]}` overwrites whole rows selected by the usage column (weather cells included)")
+                elif isinstance(sl, ast.Tuple) and mask_reads and col is None:
+                    n_chk += 1
+                    r4.require(False, f"{f.key}|loc-store-all-columns-by-usage", f.where(st), f"{f.qualname}: `{unparse(st)[:80]}` stores into columns other than the usage column on rows selected by usage")
+            # (2) whole-frame rebinding conditioned on usage
+            if isinstance(tgt, ast.Name) and reads:
+                whole = False
+                v = val
+                if isinstance(v, ast.Call) and isinstance(v.func, ast.Attribute) and v.func.attr in ("mask", "where", "query", "drop", "dropna") and isinstance(v.func.value, ast.Name) and v.func.value.id == tgt.id:
+                    whole = True
+                if isinstance(v, ast.Subscript) and unparse(v.value) in (tgt.id, tgt.id + ".loc") and not isinstance(v.slice, (ast.Constant, ast.List)):
+                    whole = True
+                if whole:
+                    n_chk += 1
+                    r4.require(False, f"{f.key}|frame-filtered-by-usage", f.where(st),
+                               f"{f.qualname}: `{unparse(st)[:80]}` blanks or drops whole rows depending on the usage column; the weather cells of those rows are lost and re-filled by interpolation, "
+                               f"so the temperature a prediction is based on depends on observed consumption (only the usage column itself may be edited: df.loc[cond, 'observed'] = ...)",
+                               sample={"function": f.qualname, "statement": unparse(st)[:80]})
+        r4.inst(f"{f.key}|scanned[{n_chk}]")
+    for mod, q in weather_only:
+        f = chk.repo.func(mod, q)
+        reads = [unparse(r)[:40] for r in _reads_usage(f.node) if not _presence_test_only(f, r)]
+        r4.require(not reads, f"{f.key}|weather-only", f.where(), f"{f.qualname} computes the temperature features and must not read the usage column; found {reads[:3]}")
+
     # ------------------------------------------------------------------ R05.2
     hm = chk.repo.cls(*HOURLY_MODEL)
     n_writes = 0
